@@ -21,6 +21,7 @@ PANICKY_METHODS = (
     "core::num::<impl usize>::div_ceil", "core::num::<impl u64>::div_ceil", "core::num::<impl u32>::ilog2", "core::num::<impl u64>::ilog2", "core::num::<impl usize>::ilog2",
     "core::num::<impl usize>::next_power_of_two",
 )
+PANICKY_METHODS = tuple(sorted(set(PANICKY_METHODS) | set(mir.strip_generics(x) for x in PANICKY_METHODS)))
 PANICKY_OPS = ("core::ops::arith::Sub::sub", "core::ops::arith::Add::add", "core::ops::arith::Mul::mul", "core::ops::arith::AddAssign::add_assign",
                "core::ops::arith::SubAssign::sub_assign", "core::ops::arith::Div::div", "core::ops::arith::Rem::rem")
 
